@@ -85,7 +85,11 @@ def history(draw):
     if mode == "adders" and mkind == "none":
         mkind = "requirements.txt"
     unusable = draw(st.lists(st.sampled_from(sorted(UNUSABLE)), max_size=2, unique=True)) if draw(st.integers(0, 3)) == 0 else []
-    return {"sequence": seq, "files": files, "manifest": [mkind, draw(st.sampled_from(["lf", "lf", "crlf", "nofinalnl"])), unusable]}
+    return {"sequence": seq, "files": files, "manifest": [mkind, draw(st.sampled_from(["lf", "lf", "crlf", "nofinalnl"])), unusable],
+            # a file no codemod can parse (every codemod of the run that visits it reports it as failed)
+            "broken": draw(st.booleans()),
+            # copies of the first file in directories that tools commonly skip by default (vendor/, node_modules/)
+            "vendored": draw(st.booleans())}
 
 
 def norm_result(r, root: Path):
@@ -120,6 +124,11 @@ def eval_history(case, stats=None):
         return []
     mkind, mvar = case["manifest"][:2]
     extra = manifest_files(case["manifest"])
+    if case.get("broken"):
+        extra["src/legacy_py2.py"] = b"print 'python 2'\nx = set([1, 2])\n"
+    if case.get("vendored"):
+        extra["vendor/legacy/util.py"] = rendered[0][1]["data"]
+        extra["node_modules/pkg/gen.py"] = rendered[0][1]["data"]
     with runner.scratch("c09a") as ra, runner.scratch("c09b") as rb:
         # copy A: batch
         proja, rels, _ = engine.build_project(ra, seq, rendered, extra)
@@ -135,7 +144,7 @@ def eval_history(case, stats=None):
             resb.append(runner.run_cli([str(projb), "--output", str(outb), "--codemod-include", cid], cwd=str(rb), output=outb, timeout=900))
         treeb = runner.snapshot(projb)
         roota, rootb = Path(ra), Path(rb)
-        labels = [f"seq={len(seq)}", "manifest=" + mkind]
+        labels = [f"seq={len(seq)}", "manifest=" + mkind] + (["unparsable-file"] if case.get("broken") else []) + (["vendored-copies"] if case.get("vendored") else [])
         if any(engine.kind_of(engine.codemod_by_id(c)) == "rule" for c in seq):
             labels.append("has-rule-detected")
         feats = sorted(set(["manifest:" + mkind] if mkind != "none" else []))
